@@ -97,6 +97,8 @@ CLAIMED = {
         technique='Lean 4 proof: inductive representation invariant + refinement to a reference model over a hand-written executable model of the core; differential correspondence check (lock-step judge) under a ledger allocator'),
     'C13': dict(category='proof', text="Lean: panic_atomic (a panicking call leaves a well-formed state whose abstraction is the previous one — contents, lengths, kinds — except the handle moved into unsplit), no_ub for all argument values. T2: catch_unwind around every call, full handle table compared with the pre-state after every panic, script continues and ends with a balanced ledger; 'mustPanic' contract oracle (documented panics happen, in-contract calls do not panic).", design='§7 C13', note="Trusted: Lean kernel; the hand transliteration of src/bytes.rs + src/bytes_mut.rs into Model/Core.lean (tied by T2 only: lock-step judge compares outcome, every live handle's kind / allocation class + offset / len / capacity / is_unique / contents and the allocator-event delta after every op; ~250k ops per quick run, 0 disagreements on the unchanged tree); std's Vec/Box behaviour and the allocator contract as modelled (checked by T2); OpOK (slices <= isize::MAX); 64-bit usize.",
         technique='Lean 4 proof: inductive representation invariant + refinement to a reference model over a hand-written executable model of the core; differential correspondence check (lock-step judge) under a ledger allocator'),
+    'C18': dict(category='proof', text="Lean theorems over the recycling model (allocation size, offset, len, cap, outstanding parts, pinned older allocations, allocation count; reserve_inner's decisions), by induction over histories of ANY length: alloc_size_bounded (every allocation the buffer ever lives in, current or pinned, <= max(A0, 4M, 8)), live_bounded (peak live <= (retained allocations + 1) x that), big_enough_no_alloc (once the allocation reached 2M a refill with all parts dropped never allocates), alloc_doubles, allocs_bounded (with every part dropped before the refill the total number of byte-buffer allocations <= log2(4M+8)+3, independent of the number of rounds), rinv_step; the 'in particular' clause is reclaim_whole / reserve_whole_no_alloc over M1 (Props/C08). T2: the recycling model runs in lock-step with a real BytesMut under the ledger allocator over 10^3 (quick) to 3*10^5 (thorough) rounds of 8 consumption styles x retention windows x sizes, comparing allocation size, offset, len, capacity, allocation count and live bytes after every operation, and the bound functions are checked on the implementation's own ledger.", design='§7 C18', note="Trusted: Lean kernel; the recycling model is a second, coarser transliteration of reserve_inner tied by T2 only (7.8M operations, 0 disagreements); the usage-pattern hypotheses HistOK / Recycled (leftover + message <= M; parts dropped before the refill) are assumptions about the caller; std Vec growth policy.",
+        technique='Lean 4 proof: induction over histories with a potential/invariant argument on a hand-written arithmetic model; differential correspondence check under a ledger allocator'),
     'C05': dict(category='proof', text="Lean (Model/Conc.lean, RA-view semantics; any number of threads/handles/steps; orderings are a parameter): ra_safe — if the orderings satisfy the decidable lower bound Sufficient then no reachable state has a data race on buffer memory, a use after free or a double free; freed_no_handles; unique_is_sole (a holder that loads 1 is the only holder: no stale 1); toVec_exclusive; four tightness theorems (each bound of Sufficient is necessary). T1: orderings + shape facts of the 32 atomic sites regenerated from the source each run, certificate `Sufficient ords` by decide. T2: nine loom models of the real code x five representations through the hook, ghost UnsafeCell per buffer (read on handle reads, written on deallocation by the model file's global allocator and after zero-copy conversion), exactly-once deallocation, at most one zero-copy owner.", design='§7 C05, §3 M5', note="Trusted: Lean kernel; the RA-view semantics as a model of C11's RA+relaxed fragment; M5 protocol model (hand-written, tied by T1 shape facts and loom); Rust ownership/borrowing; loom (preemption bound 3 quick / 5 thorough). PARTIAL: the promotion protocol on the `data` word (shallow_clone_vec CAS) is covered by loom models p2/p8 only, not by a Lean theorem.", technique='Lean 4 proof: inductive invariant over a small-step release/acquire view semantics + per-run decide certificate over orderings translated from the source; loom exploration of the real code as correspondence / failing-schedule search'),
     'C06': dict(category='proof', text="Lean (Model/Conc.lean, RA-view semantics; any number of threads/handles/steps; orderings are a parameter): ra_safe — if the orderings satisfy the decidable lower bound Sufficient then no reachable state has a data race on buffer memory, a use after free or a double free; freed_no_handles; unique_is_sole (a holder that loads 1 is the only holder: no stale 1); toVec_exclusive; four tightness theorems (each bound of Sufficient is necessary). T1: orderings + shape facts of the 32 atomic sites regenerated from the source each run, certificate `Sufficient ords` by decide. T2: nine loom models of the real code x five representations through the hook, ghost UnsafeCell per buffer (read on handle reads, written on deallocation by the model file's global allocator and after zero-copy conversion), exactly-once deallocation, at most one zero-copy owner.", design='§7 C06, §3 M5', note="Trusted: Lean kernel; the RA-view semantics as a model of C11's RA+relaxed fragment; M5 protocol model (hand-written, tied by T1 shape facts and loom); Rust ownership/borrowing; loom (preemption bound 3 quick / 5 thorough). PARTIAL: the promotion protocol on the `data` word (shallow_clone_vec CAS) is covered by loom models p2/p8 only, not by a Lean theorem.", technique='Lean 4 proof: inductive invariant over a small-step release/acquire view semantics + per-run decide certificate over orderings translated from the source; loom exploration of the real code as correspondence / failing-schedule search'),
 }
@@ -127,7 +129,7 @@ def main():
             'guard': 'tokio_rs_bytes_verif',
             'enable': 'RUSTFLAGS="--cfg loom --cfg tokio_rs_bytes_verif" VERIF_DIR=/verif cargo test --manifest-path /repo/Cargo.toml --lib (loom models only); every other check uses the public API with no hook',
             'baseline_off_cmd': 'cd /repo && cargo test --workspace --no-fail-fast --offline',
-            'source_commits': [],
+            'source_commits': ['526257d'],
             'add_only': True,
         },
         'engines': [{
